@@ -352,6 +352,47 @@ func rulesC05(e *Engine, r *Report) {
 				func(l LabelSet) bool { return l.Has("refilled") }, "ReceiveLogger.Parse called first")
 		}
 	}
+	// ---------------------------------------------------------------- R05.11
+	r.Rule("R05.11", "after a restart the cache reaches back as far as anything left on the stage: while walking the stage Recover compares the modification time of EVERY companion it could read with the oldest seen so far and lowers it when older - complete or not (a stray incomplete companion is exactly the file whose remaining parts may complete it) - and then refills the cache from (oldest - a day)")
+	if top := needFn(e, r, "R05.11", "stage.(*Stage).Recover"); top != nil {
+		var walk *ssa.Function
+		for _, cf := range WithClosures(top) {
+			if cf != top && len(e.findInstrs(cf, "call(stage.readLocalCompanion)(§)", false)) > 0 {
+				walk = cf
+			}
+		}
+		if walk == nil {
+			r.Unresolved("R05.11", "the walk callback of Recover that reads companions")
+		} else {
+			rd := e.findInstrs(walk, "call(stage.readLocalCompanion)(§)", false)[0]
+			rv := e.Canon(rd.(ssa.Value))
+			edges := e.ifEdges(walk, "("+rv+"#1 == nil)")
+			r.Min("R05.11", "`companion read` edges in the walk", len(edges), 1)
+			nxt := e.findInstrs(walk, "call(strings.TrimSuffix)(p0, §)", false)
+			r.Min("R05.11", "case split after the age bookkeeping", len(nxt), 1)
+			mt := "invoke(os.FileInfo.ModTime)(p1)"
+			cls := labeler(
+				I("call(time.(Time).Before)("+mt+", ^var(oldest))", "compared"),
+				C("call(time.(Time).Before)("+mt+", ^var(oldest))", "older"),
+				I("store(^&var(oldest) = "+mt+")", "lowered"),
+			)
+			for _, ed := range edges {
+				if len(nxt) == 0 {
+					break
+				}
+				e.GuardedFrom(r, "R05.11", e.ShortName(walk)+": every companion read moves `oldest` when it is older", walk,
+					FlowOpts{Classify: cls, Target: only(nxt[0]), StartEdge: ed.B, StartSucc: ed.Succ},
+					func(l LabelSet) bool { return l.Has("compared") && (!l.Has("older") || l.Has("lowered")) }, "ModTime compared with oldest, and stored when older")
+			}
+			bc := e.findInstrs(top, "call(stage.(*Stage).buildCache)(p0, call(time.(Time).Add)(var(oldest), §))", false)
+			okb := len(bc) == 1
+			if okb {
+				d := e.Canon(bc[0].(ssa.CallInstruction).Common().Args[1])
+				okb = strings.Contains(d, "-86400000000000") || strings.Contains(d, "* -1")
+			}
+			r.Check(okb, "R05.11", "stage.(*Stage).Recover: cache refilled from (oldest - cacheAgeLogged)", e.Pos(top.Pos()), "the refill after recovery does not start a day before the oldest companion", 1)
+		}
+	}
 }
 
 func nameOr(m map[string]string, k string) string {
